@@ -4,7 +4,7 @@ from verif.core import Infra
 META = dict(
     technique="TLA+ reference model of Set-Cookie rendering/parsing and of the request cookie jar (Cookie.tla); TLC checks the reference's own claims (a peer sees exactly the attributes set or rejects; never an additional request cookie; exact round trip for cookie-octets) on every enumerated vector and emits the vectors, which are replayed into Cookie / ResponseHeader.SetCookie / RequestHeader.SetCookie and parsed back with the real parsers (B3)",
     design_ref="DESIGN.md §4 C06",
-    text="TLC enumerates (A) all 480 attribute combinations x domain/path presence x both setter orders (SameSite/Partitioned, which also set Secure/Path, called after or before the other setters), (B) every string of <= N tokens over {; = \" CR LF SP , \\ a b 'secure' and the escapes %3B %3b %0d %0a %3D %22 %25 (decoded by SetPath, plain text elsewhere)} in each of key/value/domain/path with a plain and an attribute-rich cookie, (C) key x value pairs, (D) one RequestHeader.SetCookie with every key x value of < N byte tokens and (F) sequences of 2-3 SetCookie calls that set the SAME name again and again, with names containing ';', CR, LF, '=', blanks, judged after each call, (E) sequences of 2-3 SetCookie calls over a menu of hostile values (smuggling attempt, quoted, blank, one the server discards) and names including the nameless cookie. For each vector the spec states the attributes a peer must see and whether the strings are cookie-octets; the Go harness builds the cookie through the API, serialises it (Cookie.Cookie(), and ResponseHeader write+read), parses it back with Cookie.ParseBytes (also with the attributes in the opposite order), and for requests writes the header and lists RequestHeader.Cookies() after reading it into a fresh header, into a header object that parsed all previous requests, and in the handler of a real server over one keep-alive connection.",
+    text="TLC enumerates (A) all 480 attribute combinations x domain/path presence x both setter orders (SameSite/Partitioned, which also set Secure/Path, called after or before the other setters), (B) every string of <= N tokens over {; = \" CR LF SP , \\ a b 'secure' and the escapes %3B %3b %0d %0a %3D %22 %25 (decoded by SetPath, plain text elsewhere)} in each of key/value/domain/path with a plain and an attribute-rich cookie, (C) key x value pairs, (D) one RequestHeader.SetCookie with every key x value of < N byte tokens and (F) sequences of 2-3 SetCookie calls that set the SAME name again and again, with names containing ';', CR, LF, '=', blanks, judged after each call, (E) sequences of 2-3 SetCookie calls over a menu of hostile values (smuggling attempt, quoted, blank, one the server discards) and names including the nameless cookie. For each vector the spec states the attributes a peer must see and whether the strings are cookie-octets; the Go harness builds the cookie through the API, serialises it (Cookie.Cookie(), and ResponseHeader write+read), parses it back with Cookie.ParseBytes (also with the attributes in the opposite order), every response cookie is additionally produced on a long-lived Cookie object that held another fully-attributed, serialised cookie and was refilled through Reset+setters / CopyTo / Parse / ResponseHeader.Cookie, and must serialise and report exactly like a fresh object; for requests it writes the header and lists RequestHeader.Cookies() after reading it into a fresh header, into a header object that parsed all previous requests, and in the handler of a real server over one keep-alive connection.",
     note="Trusted: the TLA+ transcription of RFC 6265 rendering/parsing (meta-checked by TLC), TLC, the Go toolchain. A parse rejection is accepted for strings that are not cookie-octets (nothing is smuggled). Keys in round-trip vectors are tokens (no '='); paths start with '/' and contain no dot segments or escapes.",
 )
 
